@@ -44,6 +44,9 @@ func checkC07(c *Ctx) {
 	c.c07NoOp()
 	c.c07LoadStore()
 	for _, b := range backends {
+		c.replacedEntryKeeps(b, "R07.4", "K", "V") // "expired but still retrievable as stale", Walk still reports the key
+	}
+	for _, b := range backends {
 		b := b
 		c.borrow("C13", func() { c.c13Counts(b, nil) }, func(o *coreObl) (string, bool) {
 			return "R07.7", o.Rule == "R13.3" && strings.HasSuffix(o.Construct, ".Walk")
@@ -638,6 +641,18 @@ func iterations(p *pw.Path) []*iterGroup {
 	return out
 }
 
+// emptiesShard: the event assigns a shard's map a fresh empty map or nil (lazy re-allocation is the writers' business, see C13 R13.4).
+func emptiesShard(ev *pw.Event) bool {
+	if ev.Kind != pw.EvFieldWrite || ev.Field == nil || ev.Field.Name() != "data" || ev.Value == nil {
+		return false
+	}
+	if _, isMap := ev.Field.Type().Underlying().(*types.Map); !isMap {
+		return false
+	}
+	v := ev.Value
+	return v.Kind == pw.KAlloc && len(v.Elems) == 0 || v.Kind == pw.KConst && v.IsNil
+}
+
 // overShards reports whether an iteration group is one step of a loop over the shard array of a sharded backend.
 func overShards(g *iterGroup) bool {
 	v := g.begin.Recv
@@ -664,10 +679,8 @@ func (c *Ctx) shardCoverage(rule, op string, paths []*pw.Path, replaceOK bool) (
 				if (ev.Kind == pw.EvMapIter || ev.Kind == pw.EvMapLen) && isShardData(ev) {
 					examined = true
 				}
-				if replaceOK && ev.Kind == pw.EvFieldWrite && ev.Field != nil && ev.Field.Name() == "data" && ev.Value != nil && ev.Value.Kind == pw.KAlloc && len(ev.Value.Elems) == 0 {
-					if _, isMap := ev.Value.Type.Underlying().(*types.Map); isMap {
-						examined = true
-					}
+				if replaceOK && emptiesShard(ev) {
+					examined = true
 				}
 			}
 			if !examined && !g.open && !seen[g.begin.Pos] {
@@ -706,8 +719,8 @@ func (c *Ctx) c07Batch(b BK) {
 			for _, g := range iterations(p) {
 				if s.op == "DeleteAll" && b.Sharded && !g.overData && overShards(g) {
 					for _, ev := range g.events {
-						if ev.Kind == pw.EvFieldWrite && ev.Field != nil && ev.Field.Name() == "data" && ev.Value != nil && ev.Value.Kind == pw.KAlloc && len(ev.Value.Elems) == 0 {
-							nIter++ // the shard's map is replaced by a fresh empty one
+						if emptiesShard(ev) {
+							nIter++ // the shard's map is replaced by a fresh empty one (or dropped: nil)
 						}
 					}
 				}
@@ -739,7 +752,7 @@ func (c *Ctx) c07Batch(b BK) {
 								effects++
 							}
 						}
-						if syncMapOp(ev) == "Delete" {
+						if syncMapOp(ev) == "Delete" || syncMapOp(ev) == "LoadAndDelete" {
 							if len(ev.Args) == 1 && ev.Args[0].Kind == pw.KRangeVal {
 								effects++
 							}
@@ -761,10 +774,7 @@ func (c *Ctx) c07Batch(b BK) {
 					r.Bad("R07.4", op, "conditional-or-missing-effect", c.Pos(p.RetPos), fmt.Sprintf("an iteration over an entry performs %d %s effects, expected exactly one unconditional effect on the iterated entry", effects, s.op), shortTrace(p))
 					bad = true
 				}
-				if s.op != "Len" && counts != 1 {
-					r.Bad("R07.4", op, "count-per-entry", c.Pos(p.RetPos), fmt.Sprintf("the counter is incremented %d times per entry, expected once", counts), shortTrace(p))
-					bad = true
-				}
+				_ = counts // how many entries a batch operation reports to the metrics is C18's matter (R18.3), not observable here
 			}
 			// no early termination of the scan: Range callbacks return true, loops are not left by break/return
 			for _, ev := range p.Events {
@@ -781,7 +791,13 @@ func (c *Ctx) c07Batch(b BK) {
 			}
 			// counters start at zero
 			firstAssign := map[string]bool{}
+			if s.op != "Len" {
+				firstAssign = nil // metric counters are C18's matter
+			}
 			for _, ev := range p.Events {
+				if firstAssign == nil {
+					break
+				}
 				if ev.Kind == pw.EvAssign && ev.Obj != nil && (ev.Obj.Name() == "cnt" || ev.Obj.Name() == "n" || ev.Obj.Name() == "count") && !firstAssign[ev.Obj.Name()] {
 					firstAssign[ev.Obj.Name()] = true
 					if cst, ok := poly.Of(ev.Value, nil).IsConst(); !ok || cst.Sign() != 0 {
@@ -798,18 +814,15 @@ func (c *Ctx) c07Batch(b BK) {
 						okRet = false
 					}
 				}
-				if !okRet {
-					r.Bad("R07.4", op, "len-result", c.Pos(p.RetPos), "Len does not return its entry counter", shortTrace(p))
-					bad = true
+				urv := rv
+				for urv != nil && urv.Kind == pw.KConv {
+					urv = urv.Src
 				}
-			}
-			if s.notify != "" {
-				cn := p.Calls(s.notify)
-				if len(cn) != 1 {
-					r.Bad("R07.4", op, "notify-count", c.Pos(p.RetPos), fmt.Sprintf("%d notifications, expected one per call", len(cn)), shortTrace(p))
+				if !okRet && urv != nil && urv.Kind == pw.KCall && urv.Ev != nil && strings.HasPrefix(urv.Ev.Role, "Std:atomic.") {
+					r.Unknown("R07.4", op, "Len returns a separately maintained atomic counter instead of counting the storage: the counter's maintenance is not modelled")
 					bad = true
-				} else if a := cn[0].Args[len(cn[0].Args)-1]; !(a.Obj != nil && a.Obj.Name() == "cnt" || a.Kind == pw.KHavoc || a.Kind == pw.KArith || a.Kind == pw.KConst) {
-					r.Bad("R07.4", op, "notify-arg", c.Pos(cn[0].Pos), "the count passed to the notification is not the per-entry counter", shortTrace(p))
+				} else if !okRet {
+					r.Bad("R07.4", op, "len-result", c.Pos(p.RetPos), "Len does not return its entry counter", shortTrace(p))
 					bad = true
 				}
 			}
@@ -853,7 +866,7 @@ func (c *Ctx) c07Write(b BK) {
 			if b.Sharded && ev.Kind == pw.EvMapInsert && isShardData(ev) {
 				stores = append(stores, ev)
 			}
-			if !b.Sharded && syncMapOp(ev) == "Store" {
+			if !b.Sharded && isSyncStore(p, ev) {
 				stores = append(stores, ev)
 			}
 		}
